@@ -106,6 +106,8 @@ RareContainers ==
         DictOf(<<DKey(KA, BareBytes, FALSE), DKey(KB, BareDate, TRUE)>>)}
   \cup {AnyOf(<<SBytesA, SDate0>>), AnyOf(<<SDatetime0, SDate0, SUuid0, BareNone>>), AnyOf(<<BareBool, SFloatPrec>>),
         SAlias("T", SBytesA), SAlias("T", AnyOf(<<SDate0, BareNone>>))}
+  \* a list typed by the schema that accepts everything (and compares equal to everything)
+  \cup {TypedList(BareAny), [TypedList(BareAny) EXCEPT !.max_len = Some(VInt(3))], DictOf(<<DKey(KA, TypedList(BareAny), TRUE)>>)}
   \* floats so large that scaling them to any precision overflows, pinned with a precision
   \cup {[BareFloat EXCEPT !.value = Some(VFloat(200000)), !.precision = Some(VInt(2))],
         TypedList([BareFloat EXCEPT !.value = Some(VFloat(200000)), !.precision = Some(VInt(1))])}
